@@ -109,6 +109,12 @@ func genC18(s uint64, idx int, tier string) *Plan {
 		p.Hosts = append(p.Hosts[:at:at], append([]string{invalidHost}, p.Hosts[at:]...)...)
 	}
 
+	if idx%4 == 2 {
+		// the application keeps its Dialer: the same schedule twice (or, in tie
+		// mode, every repetition) through one value
+		p.SharedDialer = true
+		p.Reps = 2
+	}
 	us := int64(time.Microsecond)
 	ms := int64(time.Millisecond)
 	if p.Tie {
@@ -245,6 +251,11 @@ func shrinkRace(p *Plan) []*Plan {
 	add(func(q *RacePlan) bool {
 		ok := q.Reps > 1
 		q.Reps = 0
+		return ok
+	})
+	add(func(q *RacePlan) bool {
+		ok := q.Reps > 2 && q.SharedDialer
+		q.Reps = 2
 		return ok
 	})
 	return out
